@@ -70,7 +70,7 @@ def run(chk):
             if isinstance(n, ast.Call) and isinstance(n.func, ast.Attribute) and norm.raw(n.func.value) == aname and n.func.attr in prog.MUTATORS:
                 chk.violation("C14.fresh", n, K.short(n), f"no mutation of `{aname}`", "a resource's own allowed-method set is mutated by the dispatcher")
     r405 = [r for r in ast.walk(ur.node) if isinstance(r, ast.Return) and "HTTPMethodNotAllowed" in norm.raw(r)]
-    r404 = [r for r in ast.walk(ur.node) if isinstance(r, ast.Return) and "HTTP_NOT_FOUND" in norm.raw(r)]
+    r404 = [r for r in ast.walk(ur.node) if isinstance(r, ast.Return) and ("HTTP_NOT_FOUND" in norm.raw(r) or "HTTPNotFound" in norm.raw(r))]
     if r405 and {str(l) for l in PC.units(PC.pc(r405[0]))} == {"(allowed_methods)"} and "HTTPMethodNotAllowed(request.method, allowed_methods)" in norm.raw(r405[0]):
         chk.ok("C14.accumulate", r405[0], "405 (with the accumulated set) iff some candidate matched the path")
     else:
@@ -79,6 +79,14 @@ def run(chk):
         chk.ok("C14.accumulate", r404[0], "404 only when no candidate matched the path")
     else:
         chk.violation("C14.accumulate", ur, "return MatchInfoError(self.HTTP_NOT_FOUND)", "!(allowed_methods)", "404 can be returned although a resource matched the path")
+    # the exception object of a 404 is raised by the handler of that request: it must be created per request. A shared instance accumulates the
+    # traceback (pinning the frames and the Request of every 404 ever served) and whatever a middleware attaches to it (e.g. a Set-Cookie)
+    for r in r404:
+        args = [c.args[0] for c in ast.walk(r) if isinstance(c, ast.Call) and norm.raw(c.func) == "MatchInfoError" and c.args]
+        if args and all(isinstance(a, ast.Call) for a in args):
+            chk.ok("C14.fresh", r, "every unmatched request gets a new HTTPNotFound instance")
+        else:
+            chk.violation("C14.fresh", r, K.short(r), "MatchInfoError(HTTPNotFound())", "one HTTPNotFound instance is shared by every unmatched request: each raise extends its traceback chain (unbounded growth, remotely triggerable) and state set on the caught exception by a middleware (a cookie) leaks into unrelated responses")
     # ---- resource ------------------------------------------------------------------------------------------------
     rr = repo.func(MOD, "Resource.resolve")
     rets = [r for r in ast.walk(rr.node) if isinstance(r, ast.Return)]
@@ -145,7 +153,14 @@ def run(chk):
         chk.violation("C14.index", ix, "index_resource / unindex_resource", "same key derivation, append / remove", "index and unindex disagree on the key or the order")
     kf = repo.func(MOD, "UrlDispatcher._get_resource_index_key")
     krets = [r for r in ast.walk(kf.node) if isinstance(r, ast.Return)]
-    badk = [r for r in krets if M.match(M.compile_pat("$X.rstrip('/') or '/'"), r.value) is None]
+    def _norm_key(v):
+        # `<key>.rstrip('/') or '/'`, possibly passed through the quoting-form conversion `_path_safe(...)` (inside or outside)
+        if isinstance(v, ast.Call) and isinstance(v.func, ast.Name) and v.func.id == "_path_safe" and len(v.args) == 1:
+            return _norm_key(v.args[0])
+        if M.match(M.compile_pat("$X.rstrip('/') or '/'"), v) is not None:
+            return True
+        return False
+    badk = [r for r in krets if not _norm_key(r.value)]
     if krets and not badk:
         chk.ok("C14.index", kf, "every index key is normalised the same way (trailing slash stripped, root is '/'): plain and variable resources with the same fixed prefix share one candidate list, so registration order decides among them")
     else:
@@ -209,6 +224,8 @@ def run(chk):
     else:
         chk.violation("C14.segment", dr.node, "GOOD = r'[^{}/]+'", "", "variable segment pattern vanished")
 
+    hunt_rules(chk, repo)
+
 
 def _t(v) -> str:
     t = norm.raw(v)
@@ -219,3 +236,37 @@ def re_flags():
     import re
 
     return re.DOTALL
+
+
+def hunt_rules(chk, repo):
+    """Rules written after the defect hunt (DESIGN 12)."""
+    # ---- C14.quoting: every matcher built from a route template is in the quoting form the request path is compared in (URL.path_safe) -----
+    # canonical / url_for keep the percent-encoded text; matching against rel_url.path_safe needs the decoded-safe form, otherwise the URL that
+    # url_for() returns for `/café/{name}` never resolves (url_for and resolution must be inverse)
+    sites = [("DynamicResource.__init__", "re.escape("), ("PrefixResource.__init__", "self._prefix2"), ("UrlDispatcher._get_resource_index_key", "return")]
+    for q, what in sites:
+        f = repo.func(MOD, q)
+        if any(isinstance(c, ast.Call) and isinstance(c.func, ast.Name) and c.func.id == "_path_safe" for c in ast.walk(f.node)):
+            chk.ok("C14.quoting", f, f"{q}: the matcher is built from the path_safe form of the template")
+        else:
+            chk.violation("C14.quoting", f, what, "_path_safe(<template text>)",
+                          f"{q} builds its matcher from the requoted template text but it is compared with the decoded URL.path_safe of the request: a literal part that needs percent-encoding (`/café/{{name}}`, `/my docs/...`, a static or sub-app prefix with a space or non-ASCII letter) never matches, although url_for() returns exactly that URL")
+    # ---- C14.index.subapp: what was never indexed is not un-indexed -----------------------------------------------------------------------
+    ap = repo.func(MOD, "PrefixedSubAppResource._add_prefix_to_resources")
+    rg = repo.func(MOD, "UrlDispatcher.register_resource")
+    skips_index = any(isinstance(i, ast.If) and "MatchedSubAppResource" in norm.raw(i.test) for i in ast.walk(rg.node))
+    for c, _b in K.exprs(ap, "router.unindex_resource(resource)"):
+        if not skips_index or PC.has_lit(PC.pc(c), "isinstance(resource, MatchedSubAppResource)", False) is not None:
+            chk.ok("C14.index", c, "prefixing a nested application re-indexes only resources that register_resource() indexed (domain sub-apps are skipped)")
+        else:
+            chk.violation("C14.index", c, K.short(c), "!(isinstance(resource, MatchedSubAppResource))",
+                          "register_resource() never indexes a MatchedSubAppResource, but _add_prefix_to_resources() un-indexes every child: `api.add_domain(...); root.add_subapp('/api', api)` raises KeyError")
+    # ---- C14.domain: both domain rules compare the lower-cased host ------------------------------------------------------------------------
+    for cname in ("Domain", "MaskDomain"):
+        md = repo.cls(MOD, cname).methods.get("match_domain")
+        if md is None:
+            continue
+        if any(isinstance(c, ast.Call) and isinstance(c.func, ast.Attribute) and c.func.attr == "lower" and norm.raw(c.func.value) == "host" for c in ast.walk(md.node)):
+            chk.ok("C14.domain", md, f"{cname}.match_domain compares the lower-cased Host")
+        else:
+            chk.violation("C14.domain", md, K.short(md.node.body[-1], 60), "host.lower()", f"{cname}.match_domain is case-sensitive while its sibling lower-cases the host: `Host: WWW.Example.COM` skips the `*.example.com` sub-application (and its middlewares) and is dispatched by the parent")
